@@ -23,6 +23,87 @@ def enc(x):
     return BIG if x == np.inf else (-BIG if x == -np.inf else int(round(x / U)))
 
 
+QU = 1e-7
+
+
+def q(x):
+    from harness.encode import quantise
+    return quantise(float(x), QU)
+
+
+def real_model_traces(rng, quick):
+    """REAL copulas (Clayton, independent, completely dependent) over real margins: the clauses of C12 that do not need
+    an exact reference, on numbers quantised to 1e-7 (thin): non-negativity, agreement of the fast paths with the
+    general recursion, additivity of a split, margin consistency, inverse tail integral."""
+    from harness.models import copula_models, levy_models
+    from rpylib.model.utils import create_levy_copula_model, create_independent_copula, create_dependent_copula
+    cms = dict(copula_models())
+    lm = levy_models()
+    cms["indep2"] = create_levy_copula_model([lm["hem"], lm["hem2"]], create_independent_copula())
+    cms["indep3"] = create_levy_copula_model([lm["hem2"], lm["merton"], lm["hem"]], create_independent_copula())
+    cms["dep2"] = create_levy_copula_model([lm["hem2"], lm["hem"]], create_dependent_copula())
+    cms["clayton2_cgmy"] = create_levy_copula_model([lm["cgmy05"], lm["hem2"]], copula_models()["clayton3"].copula)
+    kinds = [(0.03, 0.09), (0.05, np.inf), (-0.08, -0.02), (-np.inf, -0.04), (-0.05, 0.07), (-np.inf, np.inf), (-0.03, np.inf),
+             (-np.inf, 0.06), (0.011, 0.013), (-0.2, -0.11)]
+    out = []
+    for name, model in sorted(cms.items()):
+        d = model.dimension()
+        hdr = {"kind": "real:" + name, "atoms": []}
+        ev = []
+        combos = [c for c in itertools.product(kinds, repeat=d) if not all(x < 0 < y for x, y in c)]
+        rng.shuffle(combos)
+        for c in combos[:(60 if quick else 400)]:
+            a = [x for x, _ in c]
+            b = [y for _, y in c]
+            try:
+                nd = model._mass_nd(list(a), list(b))
+                fast = model.mass(tuple(a), tuple(b))
+                e = {"e": "Real", "sub": "rect", "nd": q(nd), "fast": q(fast)}
+                # split along one axis at an interior point (possibly 0-straddling pieces, never an end at 0)
+                k = rng.randrange(d)
+                lo, hi = a[k], b[k]
+                cands = [x for x in (-0.15, -0.06, -0.03, 0.02, 0.04, 0.08, 0.3) if lo < x < hi]
+                if cands:
+                    cpt = rng.choice(cands)
+                    b1, a2 = list(b), list(a)
+                    b1[k], a2[k] = cpt, cpt
+                    okl = not all(x < 0 < y for x, y in zip(a, b1))
+                    okr = not all(x < 0 < y for x, y in zip(a2, b))
+                    if okl and okr:
+                        e.update({"left": q(model.mass(tuple(a), tuple(b1))), "right": q(model.mass(tuple(a2), tuple(b))), "split": 1})
+                e.setdefault("split", 0)
+                e.setdefault("left", 0)
+                e.setdefault("right", 0)
+                # margin consistency: all other coordinates over the whole line
+                others_full = [i for i in range(d) if a[i] == -np.inf and b[i] == np.inf]
+                rest = [i for i in range(d) if i not in others_full]
+                if len(rest) == 1 and not (a[rest[0]] < 0 < b[rest[0]]):
+                    i = rest[0]
+                    e.update({"marg": q(model.models[i].levy_triplet.nu.integrate(a[i], b[i])), "hasmarg": 1})
+                e.setdefault("hasmarg", 0)
+                e.setdefault("marg", 0)
+                ev.append(e)
+            except Exception as ex:
+                ev.append({"e": "Raise", "what": type(ex).__name__ + ": " + str(ex)[:80]})
+        # inverse marginal tail integral: attainable levels on both sides
+        for i, m in enumerate(model.models):
+            nu = m.levy_triplet.nu
+            lam_p, lam_m = float(nu.integrate(0.0, np.inf)), float(nu.integrate(-np.inf, 0.0))
+            levels = []
+            for f in (0.05, 0.3, 0.6, 0.9, 0.98):
+                levels += [f * lam_p if np.isfinite(lam_p) else 100.0 * f, -(f * lam_m if np.isfinite(lam_m) else 100.0 * f)]
+            for x in levels:
+                try:
+                    inv = model.inverse_tail_integral(i, x)
+                    back = model.marginal_tail_integral(i, float(inv))
+                    ev.append({"e": "Real", "sub": "inv", "x": q(x), "back": q(back), "sidepos": 1 if x > 0 else 0, "invpos": 1 if inv > 0 else 0})
+                except Exception as ex:
+                    ev.append({"e": "Raise", "what": "inverse_tail_integral: " + type(ex).__name__ + ": " + str(ex)[:60]})
+        for k in range(0, len(ev), 200):
+            out.append({"tid": "", "hdr": hdr, "ev": ev[k:k + 200]})
+    return out
+
+
 def main():
     out, tier, seed = sys.argv[1], sys.argv[2], int(sys.argv[3])
     quick = tier == "quick"
@@ -111,6 +192,9 @@ def main():
                 except Exception as ex:
                     ev0.append({"e": "Raise", "what": type(ex).__name__})
             traces.append({"tid": f"m{len(traces)}", "hdr": dict(hdr, kind=f"d{d}:zero"), "ev": ev0})
+    for t in real_model_traces(rng, quick):
+        t["tid"] = f"m{len(traces)}"
+        traces.append(t)
     with open(out, "w") as f:
         for t in traces:
             f.write(json.dumps(t, separators=(",", ":")) + "\n")
